@@ -113,4 +113,62 @@ theorem run_shape (e : Env) (fs : List Frame) (s : St) :
       · right; left; exact ⟨pl, by simp [run, h1, run_closed e (closeSt s) rfl]⟩
     · left; exact run_closed e s hc (f :: fs)
 
+/-! ### registry histories -/
+
+theorem filter_ne_of_not_any {a : Attrs} {l : List Nat} {c : Nat}
+    (h : l.any (fun d => a.idOf d == a.idOf c) = false) : l.filter (fun d => a.idOf d != a.idOf c) = l := by
+  rw [List.filter_eq_self]
+  intro d hd
+  have := List.any_eq_false.mp h d hd
+  simpa [bne] using this
+
+/-- the UUID index holds exactly the online connections, after every history in every mode -/
+theorem regStep_ids_live (a : Attrs) (kick : Bool) (r : Registry) (op : RegOp) (h : r.ids = r.live) :
+    (regStep a kick r op).ids = (regStep a kick r op).live := by
+  cases op with
+  | unreg c => simp [regStep, unregister, h]
+  | reg c =>
+    simp only [regStep, register]
+    cases kick
+    · simp only [Bool.false_eq_true, if_false]
+      split
+      · exact h
+      · rename_i hc
+        simp only [Bool.or_eq_true, not_or, Bool.not_eq_true] at hc
+        show r.ids.filter (fun d => a.idOf d != a.idOf c) ++ [c] = r.live ++ [c]
+        rw [filter_ne_of_not_any hc.2, h]
+    · simp only [if_true]
+      split <;> simp [unregister, h]
+
+theorem regRun_ids_live (a : Attrs) (kick : Bool) (ops : List RegOp) (r : Registry) (h : r.ids = r.live) :
+    (regRun a kick r ops).ids = (regRun a kick r ops).live := by
+  induction ops generalizing r with
+  | nil => exact h
+  | cons op ops ih => exact ih _ (regStep_ids_live a kick r op h)
+
+theorem filter_name_of_not_any {a : Attrs} {l : List Nat} {c : Nat}
+    (h : l.any (fun d => a.nameOf d == a.nameOf c) = false) : l.filter (fun d => a.nameOf d != a.nameOf c) = l := by
+  rw [List.filter_eq_self]
+  intro d hd
+  have := List.any_eq_false.mp h d hd
+  simpa [bne] using this
+
+/-- outside kick mode the two indices always hold the same connections -/
+theorem regRun_names_ids_nokick (a : Attrs) (ops : List RegOp) (r : Registry) (h : r.names = r.ids) :
+    (regRun a false r ops).names = (regRun a false r ops).ids := by
+  induction ops generalizing r with
+  | nil => exact h
+  | cons op ops ih =>
+    apply ih
+    cases op with
+    | unreg c => simp [regStep, unregister, h]
+    | reg c =>
+      simp only [regStep, register, Bool.false_eq_true, if_false]
+      split
+      · exact h
+      · rename_i hc
+        simp only [Bool.or_eq_true, not_or, Bool.not_eq_true] at hc
+        show r.names.filter (fun d => a.nameOf d != a.nameOf c) ++ [c] = r.ids.filter (fun d => a.idOf d != a.idOf c) ++ [c]
+        rw [filter_name_of_not_any hc.1, filter_ne_of_not_any hc.2, h]
+
 end Gate.C43
